@@ -169,7 +169,31 @@ def isinst(x, c):
     return isinstance(x, c)
 
 
-BASE_NS = dict(seq=seq, setof=setof, no_dups=no_dups, addall=addall, filt=filt, index=index, count=count, prefix=prefix,
+def reach_plus(tuples, a, b, within=None):
+    """is there a non-empty path a ->+ b in the graph of `tuples` (optionally only through nodes of `within`)"""
+    seen = []
+    frontier = [a]
+    while frontier:
+        x = frontier.pop()
+        for (p, c) in tuples:
+            if (p is x or p == x) and (within is None or (_ident_in(p, within) and _ident_in(c, within))):
+                if c is b or c == b:
+                    return True
+                if not _ident_in(c, seen):
+                    seen.append(c)
+                    frontier.append(c)
+    return False
+
+
+def on_cycle(tuples, x, within=None):
+    return reach_plus(tuples, x, x, within)
+
+
+def has_cycle(tuples, items):
+    return any(on_cycle(tuples, x, items) for x in items)
+
+
+BASE_NS = dict(reach_plus=reach_plus, on_cycle=on_cycle, has_cycle=has_cycle, seq=seq, setof=setof, no_dups=no_dups, addall=addall, filt=filt, index=index, count=count, prefix=prefix,
                cat=cat, rev=rev, is_tuple=is_tuple, pair=pair, contents=contents, keys=keys, dget=dget, dhas=dhas,
                implies=implies, ite=ite, call=call, rng=rng, truth=truth, typeis=typeis, isinst=isinst, idof=id,
                allocated=lambda x: True)
@@ -264,7 +288,8 @@ def run_contract(contract, fn, bindings, args=None, kwargs=None, consts=None, se
             return o
     # raise conditions are over the pre-state
     must = {}
-    for exc_name, cond in contract.raises.items():
+    all_raises = dict(contract.raises, **contract.c_raises)
+    for exc_name, cond in all_raises.items():
         code, _ = _compile(cond)
         must[exc_name] = bool(eval(code, ns))
     may = {}
@@ -272,7 +297,7 @@ def run_contract(contract, fn, bindings, args=None, kwargs=None, consts=None, se
         code, _ = _compile(cond)
         may[exc_name] = bool(eval(code, ns))
     compiled = []
-    for i, cl in enumerate(contract.ensures):
+    for i, cl in enumerate(list(contract.ensures) + list(contract.c_ensures)):
         code, olds = _compile(cl)
         compiled.append((i, cl, code, [snap(eval(oc, ns)) for oc in olds]))
     ycompiled = [(i, cl) + _compile(cl) for i, cl in enumerate(contract.yields)]
@@ -309,7 +334,7 @@ def run_contract(contract, fn, bindings, args=None, kwargs=None, consts=None, se
     if exc is not None:
         name = type(exc).__name__
         names = [c.__name__ for c in type(exc).__mro__]
-        decl = [n for n in list(contract.raises) + list(contract.may_raise) if n in names]
+        decl = [n for n in list(all_raises) + list(contract.may_raise) if n in names]
         if not decl:
             o.failures.append(("raise", 0, f"unexpected {name}", repr(exc)[:200]))
         else:
@@ -339,7 +364,7 @@ def run_contract(contract, fn, bindings, args=None, kwargs=None, consts=None, se
         return o
     for exc_name, cond in must.items():
         if cond:
-            o.failures.append(("must-raise", 0, f"{exc_name} expected: {contract.raises[exc_name]}", f"returned {res!r}"[:200]))
+            o.failures.append(("must-raise", 0, f"{exc_name} expected: {all_raises[exc_name]}", f"returned {res!r}"[:200]))
     o.result = res
     ens = dict(ns)
     ens.update(result=res, out=tuple(out))
